@@ -45,6 +45,38 @@ CLAIMS = {
     "C15": claim("C15", BE + " of all JSON documents to depth 2 (thorough 3) over a scalar alphabet and of every valid path in every spelling; oracle = type-strict JSON equality, class mapping, path walk, RFC 3339 / seconds / base64 references",
                  "Every enumerated document converts to the prescribed CEL classes, round-trips type-strictly through json.dumps and json.dump with the library encoder, and every path reaches the same element under both runners; timestamps, durations and bytes encode as prescribed.",
                  "Documents beyond the depth/size bound and scalars outside the alphabet are not explored; fractional-second encodings are not compared."),
+    "C05": claim("C05", "explicit-state exploration over histories of real API calls (env / prog / eval / reeval; one environment slot, two program slots): ALL histories up to a depth bound plus BFS with de-duplication by a canonical digest of slot contents, runner-object structure and changed process-wide names; each evaluation compared with the same evaluation alone in a fresh python subprocess",
+                 "Every history within the bound is replayed on fresh real objects from the pristine process state; each evaluation outcome (value, class, or error) must equal the outcome of [env, prog, eval] run alone in a fresh process, bindings must be left unmodified and re-evaluation must reproduce the previous outcome. Every violation is re-run in a fresh subprocess before it is reported.",
+                 "One environment slot and two live programs; between histories inside a worker the library's module- and class-level state is restored to the pristine snapshot (generic snapshot of every module/class attribute of the library); lark.Lark construction memoised.",
+                 engine=E2, category="model_checking"),
+    "C06": claim("C06", BE + " of every pair and triple of adjacent operators, every operator shape up to 3 (thorough 4) operators, whitespace/comment variants, keyword positions; oracle = independent precedence-climbing reference parser and printer (celast), dump round trip by tree equality",
+                 "Every enumerated text parses to the term it was printed from under CEL's precedence and associativity (minimal and fully parenthesised spellings agree), keywords are literals in every primary position, whitespace and comments are insignificant, and parse(tree_dump(t)) == t for every tree of the term space.",
+                 "Terms beyond the operator bound; leaves filled from the atom alphabet under rotations rather than all tuples beyond one operator."),
+    "C09": claim("C09", BE + " of small lists / maps / strings / regexes with every macro, index, lookup and string function; oracle = reference semantics computed on plain Python values, a position-set regex matcher, Kleene folds, and the stated laws as direct differentials",
+                 "For every list up to length 4 over small alphabets, every index in the int64 boundary set, every map of up to two entries per key alphabet (duplicates, every order), every string up to length 3 over {a, b, e-acute, emoji} and every regex up to 4 nodes against every text up to length 4, both runners return what the CEL definition prescribes, and out-of-range / negative indexes, missing keys, duplicate keys and invalid patterns are errors.",
+                 "Heterogeneous lists, cross-type keys, uint/double indexes and regex features outside the fragment are not explored."),
+    "C12": claim("C12", BE + " of every assignment of {absent, scalar, map} to the dotted names {a, a.b, a.b.c} at levels {root, p, p.q} x packages x references, as bindings and as bindings shadowing declarations, and of every macro nesting to depth 3 with colliding and distinct variables; oracle = longest-prefix reference resolver and a lexically scoped reference evaluator",
+                 "Every reference resolves to the binding the statement names (first level that binds a, longest prefix, remaining components as selections), bindings beat declarations, and iteration variables are visible inside their macro body only, under both runners.",
+                 "Paths of at most three components over one root name; references naming a namespace, levels mentioning `a` only through non-prefix names, the leading-dot form and declared-but-unbound names are not compared."),
+    "C14": claim("C14", BE + " of call shapes x supplying styles x callable kinds x behaviours x runners with a recording wrapper; oracle = expected outcome and expected call log (once per call site reached, CEL-value arguments)",
+                 "Every way of supplying a host function yields the same binding in function and method form, the function is invoked once per reached call site with the evaluated arguments, returned / raised errors behave as evaluation errors absorbed by || && ?:, a function named like a built-in replaces it for that program only (every program order), and unbound names are errors.",
+                 "Small integer arguments; evaluation order between sibling call sites is not asserted."),
+    "C16": claim("C16", "stateless preemption-bounded exploration (iterative context bounding) of 2-3 real threads under a cooperative scheduler that owns every Python line event inside the library and the generated code; oracle = each thread's result vector equals its solo vector (fresh python subprocess)",
+                 "Every schedule with at most the stated number of preemptions, for every runner mix and for cold and warm parser state, is executed on the real library; each thread creates its own Environment and program and evaluates; no schedule changes any thread's results. The thread programs are forced to collide (same scratch names and variable names, pairwise different results).",
+                 "Switch points are Python line events in celpy/*.py and generated code (byte-code events in the functions touching process-wide state for the opcode configuration): C-level callee internals are atomic under the GIL. Executions run in long-lived workers with the library's process-wide state restored between executions; violations are confirmed from a pristine fork. Free-running stress is sampling and is not used.",
+                 engine=E3, category="model_checking"),
+    "C17": claim("C17", BE + " of helper inputs (list pairs, strings, glob patterns x texts, every prefix length of six networks x boundary targets, version pairs, tag lists, ARN shapes) called directly and through CEL, plus explicit-state exploration of all evaluation histories up to length 4 for the filter context; oracle = set algebra, shell-pattern matcher, 32-bit CIDR arithmetic, version tuples, first-match tags, ARN table, context model",
+                 "Each helper agrees with its reference on every enumerated input in function and method form through the FUNCTIONS binding, and after every sequence of successful / CEL-failing / host-raising evaluations the filter context is the one installed during the evaluation and is cleared afterwards.",
+                 "IPv6 and AWS-calling helpers are out of scope; histories run back to back inside forked chains that continue only while the context reads as None (guarded by fresh-fork and fresh-subprocess runs of short histories)."),
+    "C18": claim("C18", BE + " of every filter tree within a depth / leaf / connective bound over value clauses and one clause of each compound rewriter family, under every truth assignment; oracle = Custodian combinators applied to the value of each leaf's own text",
+                 "The emitted text of every enumerated tree parses with the library's parser and evaluates, with the library's evaluator, to the value the Custodian combinators give for the leaves' values, through logical_connector and c7n_rewrite.",
+                 "Trees beyond the bound; compound leaves not at every position of every shape; stub host functions for compound clauses under the interpreted runner."),
+    "C19": claim("C19", BE + " of ops x value kinds x value_type transforms x boundary resources x key forms, every string up to length 3 over a quoting/escape alphabet in every literal position, day / second counts, every table entry; oracle = the relation each op names (c7nrel), literal round trip, duration length, CELParser acceptance",
+                 "Every enumerated value clause evaluates to the decision of the named relation on resources on both sides of each boundary, every policy string comes back unchanged from the emitted literal, durations denote the requested length and every (rewriter, resource type) table entry is syntactically valid CEL.",
+                 "regex, cidr, date, version and value_from transforms are outside the listed unambiguous ones; present/absent on an existing-but-empty attribute is not compared."),
+    "C20": claim("C20", BE + " of -n expressions with and without -b, token strings for syntax errors, --arg bindings, and all NDJSON streams up to length 4 over a document alphabet x expressions x option sets through main(argv) in process (and a fixed list through a real subprocess); oracle = reference status/output table and the stream-independence differential",
+                 "Output and exit status follow the statement for every enumerated invocation; line k of a stream equals the output of the one-document stream [doc_k] and the status is the worst per-document status.",
+                 "-i, -f, -v and stat() are not explored; cases the statement is silent on (-b in NDJSON mode with a non-boolean, empty NDJSON line) are counted, not compared."),
 }
 
 NOT_YET = "check not built yet in this session (see DESIGN.md section 9 build order)"
